@@ -78,7 +78,7 @@ def subtree(modname, cfg, prefix, depth):
     return d
 
 
-def _dfs(mod, cfg, spec, hist, depth, res):
+def _dfs(mod, cfg, spec, hist, depth, res, sample_depth=None):
     w = mod.build(cfg, hist, spec)
     try:
         res.cov['traces_validated_against_impl'] += 1
@@ -102,14 +102,16 @@ def _dfs(mod, cfg, spec, hist, depth, res):
             if nontrivial:
                 res.cov['distinct_nontrivial'] += 1
             res.fps.add(fingerprint(w))
-        if len(res.samples) < 2 and len(hist) == depth:
+        if len(res.samples) < 2 and len(hist) == (sample_depth or depth):
             res.samples.append(dict(history=[list(o) for o in hist],
                                     oracle_comparisons=n))
-        if viol:
-            for c, s, d in viol:
-                res.violation(cfg['prop'], c, s,
-                              dict(cfg=cfg, history=[list(o) for o in hist]),
-                              d)
+        for c, s, d in viol:
+            res.violation(cfg['prop'], c, s,
+                          dict(cfg=cfg, history=[list(o) for o in hist]), d)
+        if w.violations:
+            # a step disagreed with the model: model and implementation are
+            # out of step, nothing below this node would mean anything.
+            # (Oracle violations do not prune: the state is still in step.)
             return
         if len(hist) >= depth:
             return
@@ -120,40 +122,36 @@ def _dfs(mod, cfg, spec, hist, depth, res):
         _dfs(mod, cfg, spec, hist + [op], depth, res)
 
 
+def node_task(modname, cfg, hist, depth):
+    """Worker entry: the oracle of one node only (no recursion)."""
+    env.install()
+    mod = importlib.import_module(modname)
+    res = Result()
+    spec = mod.make_spec(cfg)
+    _dfs(mod, cfg, spec, [tuple(o) for o in hist], len(hist), res,
+         sample_depth=depth)
+    return res.as_dict()
+
+
 def explore(rep, modname, cfg, depth, workers, seed, split=2):
-    """Explore all histories up to depth.  Nodes above `split` run here,
-    subtrees below run in the pool."""
+    """Explore all histories up to depth.  The master only enumerates the
+    nodes above `split` (replay, no oracle); their oracles and the subtrees
+    below run in the pool."""
     mod = importlib.import_module(modname)
     spec = mod.make_spec(cfg)
-    res = Result()
     tasks = []
 
     def top(hist):
         if len(hist) == min(split, depth):
-            tasks.append(('mc.seqx', 'subtree', (modname, cfg, hist, depth)))
+            tasks.append(('mc.seqx', 'subtree',
+                          (modname, cfg, [list(o) for o in hist], depth)))
             return
+        tasks.append(('mc.seqx', 'node_task',
+                      (modname, cfg, [list(o) for o in hist], depth)))
         w = mod.build(cfg, hist, spec)
         try:
-            res.cov['traces_validated_against_impl'] += 1
-            res.cov['transitions'] += len(hist)
-            viol = list(w.violations)
-            if not viol:
-                try:
-                    n, nontrivial, more = mod.node(w, hist, cfg, res)
-                except Exception as e:      # noqa: B902
-                    n, nontrivial, more = 0, False, [(
-                        'error', 'oracle:%s' % type(e).__name__,
-                        dict(error=repr(e)[:300]))]
-                viol += more
-                res.cov['evaluations'] += n
-                if nontrivial:
-                    res.cov['distinct_nontrivial'] += 1
-                res.fps.add(fingerprint(w))
-            if viol:
-                for c, s, d in viol:
-                    res.violation(cfg['prop'], c, s, dict(
-                        cfg=cfg, history=[list(o) for o in hist]), d)
-                return
+            if w.violations:
+                return          # reported by the node task; subtree pruned
             ops = w.enabled(spec)
         finally:
             w.close()
@@ -161,17 +159,12 @@ def explore(rep, modname, cfg, depth, workers, seed, split=2):
             top(hist + [op])
 
     top([])
-    fps = set(res.fps)
-    d = res.as_dict()
-    d.pop('fps')
-    rep.merge_counts(d)
+    fps = set()
 
     class Sink:
         def merge_counts(self, r):
             fps.update(r.pop('fps', ()))
             rep.merge_counts(r)
-    tasks = [(m, f, (a[0], a[1], [list(o) for o in a[2]], a[3]))
-             for m, f, a in tasks]
     par.run_tasks(tasks, workers, Sink(), seed)
     return fps
 
